@@ -1,7 +1,7 @@
 (* copy/copy.go containsWildcards (a separate copy of the followlinks.go function), as translated from /repo on
-   this run (Linux: runtime.GOOS = "linux"): its loop never runs out of fuel, it computes the escape-aware
-   scan (FollowLinks.contains_wildcards, the transcription of the same text), and on the inputs the copy model
-   covers (no backslash: Copier.has_unsupported excludes them) it equals the copy model's has_wild. *)
+   this run (Linux: runtime.GOOS = "linux"): its loop never runs out of fuel and, for ALL inputs, it computes
+   the copy model's escape-aware has_wild_e (a byte after a backslash is skipped); on backslash-free inputs that is
+   the escape-free has_wild (corollary, through CopyWildP.has_wild_e_plain). *)
 From Coq Require Import List NArith ZArith Bool Lia.
 From FS Require Import Sx Model.FollowLinks Src.Prims.
 From FS Require Model.Copier.
@@ -80,17 +80,28 @@ Proof.
   - rewrite H by (unfold Prims.len; lia). reflexivity.
 Qed.
 
-Lemma scan_is_has_wild : forall c,
-  existsb (N.eqb Copier.ch_bsl) c = false -> contains_wildcards c = Copier.has_wild c.
+(* the escape-aware scan of the copy model is that same function *)
+Lemma scan_is_has_wild_e : forall c, contains_wildcards c = Copier.has_wild_e c.
 Proof.
-  induction c as [|x c IH]; [reflexivity|]. cbn [existsb contains_wildcards Copier.has_wild].
-  intros H. apply orb_false_iff in H. destruct H as [Hx Hc].
-  unfold Copier.ch_bsl in Hx. rewrite N.eqb_sym in Hx. rewrite Hx.
-  unfold Copier.ch_star, Copier.ch_qm, Copier.ch_lbr.
-  destruct (N.eqb x 42 || N.eqb x 63 || N.eqb x 91); [reflexivity|]. apply IH, Hc.
+  assert (H : forall n c, (length c <= n)%nat -> contains_wildcards c = Copier.has_wild_e c).
+  { induction n as [|n IH]; intros c Hn.
+    - destruct c; [reflexivity|cbn in Hn; lia].
+    - destruct c as [|x c]; [reflexivity|]. cbn [contains_wildcards Copier.has_wild_e]. cbn [length] in Hn.
+      unfold Copier.ch_bsl, Copier.ch_star, Copier.ch_qm, Copier.ch_lbr.
+      destruct (N.eqb x 92).
+      + destruct c as [|y c]; [reflexivity|]. apply IH. cbn [length] in Hn. lia.
+      + destruct (N.eqb x 42 || N.eqb x 63 || N.eqb x 91); [reflexivity|]. apply IH. lia. }
+  intros c. apply (H (length c)). lia.
 Qed.
 
+(* for ALL inputs: the copy model's escape-aware has_wild_e *)
 Theorem copy_containsWildcards_src_eq :
+  forall c, SrcFns.copy_containsWildcards c = Some (Copier.has_wild_e c).
+Proof. intros c. rewrite copy_containsWildcards_scan, scan_is_has_wild_e. reflexivity. Qed.
+
+(* the earlier statement (escape-free has_wild on the backslash-free domain) as a corollary *)
+From FS Require Proofs.CopyWildP.
+Corollary copy_containsWildcards_backslash_free :
   forall c, existsb (N.eqb Copier.ch_bsl) c = false ->
     SrcFns.copy_containsWildcards c = Some (Copier.has_wild c).
-Proof. intros c H. rewrite copy_containsWildcards_scan, scan_is_has_wild by exact H. reflexivity. Qed.
+Proof. intros c H. rewrite copy_containsWildcards_src_eq, (CopyWildP.has_wild_e_plain c H). reflexivity. Qed.
